@@ -127,6 +127,13 @@ def build_pool(seed):
     pool['desc1'] = [{'type': 'resistor', 'id': 'R1', 'N1': '0', 'N2': '1', 'R': 22.0},
                      {'type': 'voltage_source', 'id': 'U', 'N1': '1', 'N2': '0', 'V': {'real': 3.0, 'imag': 0.0}},
                      {'type': 'conductor', 'id': 'G', 'N1': '1', 'N2': '0', 'G': 0.25}]
+    # constructor arguments that stay with the caller: component lists (ground symbol first / in the middle) and a branch list
+    for k, c in enumerate(circs):
+        comps = [circgen.impl_component(x) for x in c['components']]
+        g = [x for x in comps if x.type == 'ground'] or [__import__('CircuitCalculator.Circuit.components', fromlist=['ground']).ground(nodes=(comps[0].nodes[0],))]
+        rest = [x for x in comps if x.type != 'ground']
+        pool[f'complist{k}'] = (g + rest) if k == 0 else (rest[:1] + g + rest[1:])
+    pool['branchlist0'] = list(pool['net0'].branches)
     pool['wlist0'] = [0.0, 1.0, 50.0]
     pool['tgrid'] = np.linspace(0.0, 0.5, 40)
     return pool
@@ -315,6 +322,13 @@ def run_op(pool, op):
             c = pool[args[0]]
             net = cc.transform_circuit(c, 0.0)
             return fp(cimp.open_circuit_impedance(c, net.node_labels[0], net.node_labels[-1], np.array([0.0, 3.0])))
+        if name == 'make_circuit':
+            c = cc.Circuit(pool[args[0]])
+            return fp([c.ground_node, [x.id for x in c.components], circuit_sol_fp(cs.DCSolution(c), c)])
+        if name == 'make_network':
+            from CircuitCalculator.Network.network import Network
+            n = Network(pool[args[0]], pool['net0'].node_zero_label)
+            return fp([n.node_labels, [b.id for b in n.branches], sol_fp(bpa.nodal_analysis_bias_point_solver(n), n)])
         if name == 'fourier':
             from CircuitCalculator.SignalProcessing.periodic_functions import periodic_function, fourier_series
             wt, T, A, ph, off = pool[args[0]]
@@ -386,6 +400,7 @@ def all_ops():
     for d in ('sdesc0', 'sdesc1'):
         ops += [['create_schematic', d], ['simulate', d], ['schematic_roundtrip', d]]
     ops += [['fourier', f'pf{k}'] for k in range(5)]
+    ops += [['make_circuit', 'complist0'], ['make_circuit', 'complist1'], ['make_network', 'branchlist0']]
     ops += [['load_file', 'desc0'], ['load_file', 'desc1'], ['dump_load_file', 'doc0', 'json'], ['dump_load_file', 'flat0', 'json'],
             ['dump_load_file', 'doc0', 'yaml']]
     return ops
